@@ -373,6 +373,7 @@ func drawFlowOpts(t *Tape, thorough bool) FlowOpts {
 		o.Disk.ErrBefore = 40
 	}
 	o.Disk.Shuffle = t.Flip("lshuffle", 500)
+	o.Disk.AliasLoad = t.Flip("aliasload", 300)
 	o.Budget = t.Draw("budget", 9)
 	o.FaultFrom = []int{0, 0, 0, 0, 40, 100, 200}[t.Draw("faultfrom", 7)]
 	o.ReqMix = [rkKinds]int{3, 1, 2, 1, 1, 2, 2}
